@@ -65,6 +65,9 @@ impl Check for MerkleIndexed {
         }
         (cfg, steps)
     }
+    fn probes(&self, _prop: &str) -> std::vec::Vec<&'static str> {
+        vec!["probe.claim_against_other_root", "probe.root_changed"]
+    }
     fn dup_ok(&self, _s: &Step) -> bool {
         true
     }
